@@ -64,8 +64,8 @@ def log(*ev):
 
 def _probe(ident, slow):
     """a constructor that takes a while (probing a backend, reading a file) before it sets anything"""
+    log("Constructing", ident)
     if slow:
-        log("Constructing", ident)
         time.sleep(slow)
 
 
